@@ -259,7 +259,7 @@ def ccg(E, depth):
 
 def harnesses(tier):
     q = tier == "quick"
-    T = 600 if q else 2400
+    T = 600 if q else 900
     return [
         H("pregroup", pregroup, dict(nwords=2, maxlen=2 if q else 3), FUNCS,
           covers=["parsed", "refused", "brute"], engine="DSE (choices)",
